@@ -617,6 +617,9 @@ def _sig(kind, init, history, op, aspect, text):
     return "%s: doc.%s = %r; commit; %s -> %s" % (aspect, kind, init, "; ".join(opstr(kind, o) for o in list(history) + [op]), text)
 
 
+# generous watchdog: the box is shared; a shard is 2-40 s of CPU on an idle core
+SHARD_TIMEOUT = dict(quick=1800, thorough=7200)
+
 _MIN = {}
 
 
